@@ -403,6 +403,8 @@ struct Delivery {
   wrapper: Wrapper,
   /// sequence number (readers) or count (writer) that identifies it in the observation
   id: i64,
+  /// the writer id the DATA claims: the peer's matched writer, or (forged) another one
+  claimed_writer: EntityId,
 }
 
 pub fn run(scenario: u32, choices: &[u8], _strict: bool) -> Outcome {
@@ -602,6 +604,23 @@ pub fn run(scenario: u32, choices: &[u8], _strict: bool) -> Outcome {
         Wrapper::PrefixOfAnotherEncoding,
         Wrapper::CorrectThenPlainCopy,
       ][c.weighted(&[8, 8, 2, 1, 1, 1, 1, 1])];
+      // A sender chooses the writer id it puts into a plaintext DATA. Only with an explicit
+      // reader id (the DATA then reaches this reader only), always without any protection.
+      let forged_writer: Option<EntityId> = if e.is_reader && explicit && c.chance(45) {
+        let w = [
+          EntityId::SPDP_BUILTIN_PARTICIPANT_WRITER,
+          EntityId::P2P_BUILTIN_PARTICIPANT_STATELESS_WRITER,
+          EntityId::P2P_BUILTIN_PARTICIPANT_VOLATILE_SECURE_WRITER,
+          EntityId::SEDP_BUILTIN_PUBLICATIONS_WRITER,
+          EntityId::SEDP_BUILTIN_SUBSCRIPTIONS_WRITER,
+          eps[(ep + 1) % eps.len()].remote,
+        ][c.pick(6)];
+        if w == e.remote || w.kind().is_reader() { None } else { Some(w) }
+      } else {
+        None
+      };
+      let (payload_form, wrapper) = if forged_writer.is_some() { (PayloadForm::Plain, Wrapper::None) } else { (payload_form, wrapper) };
+      let claimed_writer = forged_writer.unwrap_or(e.remote);
       let id = {
         let n = next_id.entry(ep).or_insert(0);
         *n += 1;
@@ -636,7 +655,7 @@ pub fn run(scenario: u32, choices: &[u8], _strict: bool) -> Outcome {
           true,
           &wire::DataSpec {
             reader_id: if explicit { eid_bytes(e.local) } else { [0, 0, 0, 0] },
-            writer_id: eid_bytes(e.remote),
+            writer_id: eid_bytes(claimed_writer),
             sn: id,
             inline_qos: None,
             payload: Some(wire_payload),
@@ -710,6 +729,7 @@ pub fn run(scenario: u32, choices: &[u8], _strict: bool) -> Outcome {
           payload: payload_form_eff,
           wrapper: wrapper_eff,
           id,
+          claimed_writer,
         },
         plain_payload,
       ));
@@ -732,7 +752,7 @@ pub fn run(scenario: u32, choices: &[u8], _strict: bool) -> Outcome {
     sample.push_str(&format!(
       " | dg{dgno} srtps={srtps_eff} info_dst={} {:?}",
       ["-", "-", "own", "other"][info_dst],
-      deliveries.iter().map(|(d, _)| (eps[d.ep].name, d.explicit, d.payload, d.wrapper)).collect::<Vec<_>>()
+      deliveries.iter().map(|(d, _)| (eps[d.ep].name, d.explicit, d.payload, d.wrapper, if d.claimed_writer != eps[d.ep].remote { Some(d.claimed_writer) } else { None })).collect::<Vec<_>>()
     ));
 
     // ---------------------------------------------------------------- inject and observe
@@ -764,7 +784,9 @@ pub fn run(scenario: u32, choices: &[u8], _strict: bool) -> Outcome {
       let payload_required = e.payload != Prot::None && e.is_reader;
       let wrapper_valid = matches!(d.wrapper, Wrapper::Correct | Wrapper::CorrectThenPlainCopy);
       let lacks_protection = !rtps_ok || (sub_required && !wrapper_valid) || (payload_required && d.payload != PayloadForm::Encoded);
+      let forged = d.claimed_writer != e.remote;
       let exactly_right = addressed
+        && !forged
         && rtps_ok
         && (if sub_required { d.wrapper == Wrapper::Correct } else { d.wrapper == Wrapper::None })
         && (if payload_required { d.payload == PayloadForm::Encoded } else { d.payload == PayloadForm::Plain });
@@ -776,7 +798,7 @@ pub fn run(scenario: u32, choices: &[u8], _strict: bool) -> Outcome {
         let tc = node.readers[e.slot].topic_cache.lock().unwrap();
         let found = tc
           .get_changes_in_range_best_effort(Timestamp::ZERO, Timestamp::INFINITE)
-          .find(|(_, cc)| cc.writer_guid == GUID::new(lp, e.remote) && i64::from(cc.sequence_number) == d.id)
+          .find(|(_, cc)| cc.writer_guid == GUID::new(lp, d.claimed_writer) && i64::from(cc.sequence_number) == d.id)
           .map(|(_, cc)| match &cc.data_value {
             crate::dds::ddsdata::DDSData::Data { serialized_payload } => {
               let mut v = serialized_payload.representation_identifier.bytes.to_vec();
@@ -795,10 +817,11 @@ pub fn run(scenario: u32, choices: &[u8], _strict: bool) -> Outcome {
       };
       let newly = arrived && seen.insert((d.ep, d.id));
       let what = format!(
-        "datagram {dgno} (srtps={srtps_eff}, info_dst={}): {} {} to {} [rtps={rtps:?} sub={:?} payload={:?}] with payload {:?}, wrapper {:?}",
+        "datagram {dgno} (srtps={srtps_eff}, info_dst={}): {} {}{} to {} [rtps={rtps:?} sub={:?} payload={:?}] with payload {:?}, wrapper {:?}",
         ["-", "-", "own", "other"][info_dst],
         if e.is_reader { "DATA" } else { "ACKNACK" },
         d.id,
+        if forged { format!(" claiming writer id {:?}", d.claimed_writer) } else { String::new() },
         e.name,
         e.sub,
         e.payload,
@@ -847,6 +870,9 @@ pub fn run(scenario: u32, choices: &[u8], _strict: bool) -> Outcome {
       }
       if !d.explicit {
         o.label("entityid-unknown");
+      }
+      if forged {
+        o.label(if lacks_protection { "forged-writer-id-unprotected" } else { "forged-writer-id-nothing-required" });
       }
       if e.exempt && rtps != Prot::None && !srtps_eff && arrived {
         o.label("exempt-topic-plaintext-accepted");
